@@ -71,6 +71,10 @@ def values_eq(vm, st, a, b):
         a = deref(vm, st, a.fields[0])
     if isinstance(b, Agg) and b.tag == 'Cow' and isinstance(a, StrV):
         b = deref(vm, st, b.fields[0])
+    if isinstance(a, Opaque) and a.tag in ('ident', 'synpath') and isinstance(b, StrV):
+        a = StrV(a.data)
+    if isinstance(b, Opaque) and b.tag in ('ident', 'synpath') and isinstance(a, StrV):
+        b = StrV(b.data)
     if isinstance(a, StrV) and isinstance(b, StrV):
         return str_eq(a, b)
     if z3.is_expr(a) and z3.is_expr(b):
@@ -396,6 +400,8 @@ def s_into_iter_self(vm, st, callee, args, dest, ret_bb, m):
         return done(vm, st, dest, ret_bb, IterV(slice_items(vm, st, v)))
     if isinstance(v, VecV):
         return done(vm, st, dest, ret_bb, IterV(v.items))
+    if isinstance(v, Tokens):
+        return done(vm, st, dest, ret_bb, IterV(v.items))
     raise Unsupported(f'into_iter of {v!r}')
 
 
@@ -488,6 +494,8 @@ def s_deref_id(vm, st, callee, args, dest, ret_bb, m):
         return done(vm, st, dest, ret_bb, Ptr(p.cell, p.path, ('slice', 0, len(v.items))))
     if isinstance(v, StrV):
         return done(vm, st, dest, ret_bb, v)
+    if isinstance(v, Agg) and v.tag == 'CowSlice':
+        return s_cow_slice_as_ref(vm, st, callee, args, dest, ret_bb, m)
     if isinstance(v, Agg) and v.tag == 'Cow':
         inner = v.fields[0]
         return done(vm, st, dest, ret_bb, deref(vm, st, inner) if isinstance(deref(vm, st, inner), StrV) else inner)
@@ -624,6 +632,17 @@ def s_iter_skip_take(kind):
         return done(vm, st, dest, ret_bb, IterV(items, (), itv.count))
     h.__name__ = f's_iter_{kind}'
     return h
+
+
+def s_vec_index(vm, st, callee, args, dest, ret_bb, m):
+    items = slice_items(vm, st, args[0])
+    idx = simp(args[1])
+    if not z3.is_bv_value(idx):
+        raise Unsupported('Index with a symbolic index')
+    i = idx.as_long()
+    if i >= len(items):
+        return Outcome('panic', st, msg='index out of bounds')
+    return done(vm, st, dest, ret_bb, items[i])
 
 
 def s_vec_as_slice(vm, st, callee, args, dest, ret_bb, m):
@@ -910,6 +929,11 @@ def heck_result(vm, name, arg):
     syntactically distinct argument is the same abstraction for kernels that convert each name once.)"""
     memo = vm.__dict__.setdefault('heck_memo', {})
     if isinstance(arg, str):
+        # the conversions are known exactly on single-word ASCII names (heck splits words at case changes and separators only)
+        if re.fullmatch(r'[a-z][a-z0-9]*', arg):
+            return arg if name == 'to_snake_case' else arg[0].upper() + arg[1:]
+        if re.fullmatch(r'[A-Z][a-z0-9]*', arg):
+            return arg.lower() if name == 'to_snake_case' else arg
         key = (name, 'c:' + arg)
     else:
         key = (name, arg.sexpr())
@@ -921,7 +945,8 @@ def heck_result(vm, name, arg):
 def uf_str(name):
     def h(vm, st, callee, args, dest, ret_bb, m):
         s = as_str(vm, st, args[0])
-        return done(vm, st, dest, ret_bb, StrV(heck_result(vm, name, s.s)))
+        r = heck_result(vm, name, s.s)
+        return done(vm, st, dest, ret_bb, StrV(r))
     h.__name__ = f's_uf_{name}'
     return h
 
@@ -933,6 +958,64 @@ def s_str_concat(vm, st, callee, args, dest, ret_bb, m):
     if all(isinstance(p.s, str) for p in parts):
         return done(vm, st, dest, ret_bb, StrV(''.join(p.s for p in parts)))
     return done(vm, st, dest, ret_bb, StrV(z3.Concat(*[p.z() for p in parts])))
+
+
+def s_string_push_str(vm, st, callee, args, dest, ret_bb, m):
+    cur = vm.load(st, args[0])
+    add = as_str(vm, st, args[1])
+    if isinstance(cur.s, str) and isinstance(add.s, str):
+        new = StrV(cur.s + add.s)
+    else:
+        new = StrV(z3.Concat(cur.z(), add.z()))
+    vm.store(st, args[0], new)
+    return done(vm, st, dest, ret_bb, UNIT)
+
+
+def s_str_len(vm, st, callee, args, dest, ret_bb, m):
+    s_ = as_str(vm, st, args[0])
+    if isinstance(s_.s, str):
+        return done(vm, st, dest, ret_bb, bv(len(s_.s.encode()), 64))
+    # the length of a symbolic string: an unknown small number (int <-> bit-vector conversions of z3.Length are very slow
+    # and no kernel depends on string lengths beyond 'does not overflow')
+    ln = z3.FreshConst(z3.BitVecSort(64), 'strlen')
+    st.pc.append(z3.ULT(ln, bv(1 << 32, 64)))
+    return done(vm, st, dest, ret_bb, ln)
+
+
+def s_cow_slice(vm, st, callee, args, dest, ret_bb, m):
+    """Vec<T> / &[T] -> Cow<[T]>"""
+    v = args[0]
+    if isinstance(v, VecV):
+        return done(vm, st, dest, ret_bb, Agg(1, [v], 'CowSlice'))
+    return done(vm, st, dest, ret_bb, Agg(0, [v], 'CowSlice'))
+
+
+def s_cow_slice_as_ref(vm, st, callee, args, dest, ret_bb, m):
+    p = args[0]
+    v = vm.load(st, p)
+    inner = v.fields[0]
+    if isinstance(inner, VecV):
+        return done(vm, st, dest, ret_bb, Ptr(p.cell, p.path + (('v', v.variant), 0), ('slice', 0, len(inner.items))))
+    return done(vm, st, dest, ret_bb, inner)
+
+
+def s_str_join(vm, st, callee, args, dest, ret_bb, m):
+    items = slice_items(vm, st, args[0])
+    parts = [as_str(vm, st, vm.load(st, it)) for it in items]
+    sep = as_str(vm, st, args[1])
+    seq = []
+    for i, p in enumerate(parts):
+        if i:
+            seq.append(sep)
+        seq.append(p)
+    seq = [x for x in seq if not (isinstance(x.s, str) and x.s == '')]
+    if not seq:
+        return done(vm, st, dest, ret_bb, StrV(''))
+    if all(isinstance(x.s, str) for x in seq):
+        return done(vm, st, dest, ret_bb, StrV(''.join(x.s for x in seq)))
+    if len(seq) == 1:
+        return done(vm, st, dest, ret_bb, seq[0])
+    return done(vm, st, dest, ret_bb, StrV(z3.Concat(*[x.z() for x in seq])))
 
 
 def s_str_starts_with(vm, st, callee, args, dest, ret_bb, m):
@@ -1126,6 +1209,77 @@ def s_opaque_marker(vm, st, callee, args, dest, ret_bb, m):
     return done(vm, st, dest, ret_bb, Opaque('marker'))
 
 
+# ---- syn / proc_macro2 values used by the derive crate's attribute scanner
+def _find_opaque(vm, st, v, tag, depth=6):
+    if depth == 0:
+        return None
+    v = deref(vm, st, v)
+    if isinstance(v, Opaque) and v.tag == tag:
+        return v
+    if isinstance(v, Agg):
+        for x in v.fields:
+            r = _find_opaque(vm, st, x, tag, depth - 1)
+            if r is not None:
+                return r
+    return None
+
+
+def s_attr_path(vm, st, callee, args, dest, ret_bb, m):
+    p = _find_opaque(vm, st, args[0], 'synpath')
+    if p is None:
+        raise Unsupported('Attribute::path on a value without a path')
+    return done(vm, st, dest, ret_bb, Ptr(st.alloc(p), ()))
+
+
+def s_path_is_ident(vm, st, callee, args, dest, ret_bb, m):
+    p = deref(vm, st, args[0])
+    return done(vm, st, dest, ret_bb, str_eq(StrV(p.data), as_str(vm, st, args[1])))
+
+
+def s_ident_eq_str(vm, st, callee, args, dest, ret_bb, m):
+    i = deref(vm, st, args[0])
+    return done(vm, st, dest, ret_bb, str_eq(StrV(i.data), as_str(vm, st, args[1])))
+
+
+def s_ts_into_iter(vm, st, callee, args, dest, ret_bb, m):
+    v = deref(vm, st, args[0])
+    if isinstance(v, IterV):
+        return done(vm, st, dest, ret_bb, v)
+    return done(vm, st, dest, ret_bb, IterV(v.items))
+
+
+def s_group_stream(vm, st, callee, args, dest, ret_bb, m):
+    g = deref(vm, st, args[0])
+    return done(vm, st, dest, ret_bb, g.data)
+
+
+def s_literal_to_string(vm, st, callee, args, dest, ret_bb, m):
+    """source text of a literal token: an abstract string tied to the literal it came from"""
+    lit = deref(vm, st, args[0])
+    memo = vm.__dict__.setdefault('lit_src', {})
+    key = lit.data.sexpr() if z3.is_expr(lit.data) else 'c:' + str(lit.data)
+    if key not in memo:
+        memo[key] = (z3.String(f'literal_source#{len(memo)}'), lit.data)
+    return done(vm, st, dest, ret_bb, StrV(memo[key][0]))
+
+
+def s_parse_litstr(vm, st, callee, args, dest, ret_bb, m):
+    src = as_str(vm, st, args[0])
+    for _k, (srcvar, value) in vm.__dict__.get('lit_src', {}).items():
+        if z3.is_expr(src.s) and src.s.eq(srcvar):
+            return done(vm, st, dest, ret_bb, Agg(0, [Opaque('litstr', value)], 'Result'))
+    raise Unsupported('syn::parse_str::<LitStr> on a string that is not the source of a known literal')
+
+
+def s_litstr_value(vm, st, callee, args, dest, ret_bb, m):
+    l = deref(vm, st, args[0])
+    return done(vm, st, dest, ret_bb, StrV(l.data))
+
+
+def s_syn_error(vm, st, callee, args, dest, ret_bb, m):
+    return done(vm, st, dest, ret_bb, Opaque('synerr'))
+
+
 def s_span(vm, st, callee, args, dest, ret_bb, m):
     return done(vm, st, dest, ret_bb, Opaque('span'))
 
@@ -1169,6 +1323,7 @@ TABLE = [
     (r'^Vec::<.*>::len$', s_vec_len),
     (r'^Vec::<.*>::is_empty$', s_slice_is_empty),
     (r'^Vec::<.*>::as_slice$', s_vec_as_slice),
+    (r'^<Vec<.*> as (std::ops::)?Index(Mut)?<usize>>::index(_mut)?$', s_vec_index),
     (r'^Vec::<.*>::dedup$', s_vec_dedup),
     (r'^Vec::<.*>::pop$', s_vec_pop),
     (r'^Vec::<.*>::clear$', s_vec_clear),
@@ -1190,7 +1345,7 @@ TABLE = [
     (r'^BTreeMap::<.*>::new$', s_map_new),
     (r'^Option::<.*>::as_mut$', s_opt_as_mut),
     (r'^<<T as Text<\'_>>::Value as AsRef<str>>::as_ref$', s_deref_id),
-    (r'^<(Vec<.*>|std::string::String|Cow<.*>|&.*|std::boxed::Box<.*>) as (__)?Deref(Mut)?>::deref(_mut)?$', s_deref_id),
+    (r'^<(Vec<.*>|(std::string::)?String|Cow<.*>|&.*|std::boxed::Box<.*>) as (std::ops::)?(__)?Deref(Mut)?>::deref(_mut)?$', s_deref_id),
     (r'^core::slice::<impl \[.*\]>::get_mut::<usize>$', s_slice_get),
     (r'^<(Vec<.*>|std::string::String|Cow<.*>|str|&str) as AsRef<(str|\[.*\])>>::as_ref$', s_deref_id),
     (r'^std::string::String::as_str$', s_deref_id),
@@ -1221,6 +1376,13 @@ TABLE = [
     (r'^<str as heck::ToSnakeCase>::to_snake_case$|^<std::string::String as heck::ToSnakeCase>', uf_str('to_snake_case')),
     (r'^<str as heck::ToUpperCamelCase>::to_upper_camel_case$|^<std::string::String as heck::ToUpperCamelCase>', uf_str('to_upper_camel_case')),
     (r'^core::str::<impl str>::starts_with::<&str>$', s_str_starts_with),
+    (r'^std::string::String::push_str$', s_string_push_str),
+    (r'^(std::|alloc::)?slice::<impl \[(std::string::String|&str)\]>::join::<&str>$', s_str_join),
+    (r'^std::string::String::reserve$', s_unit),
+    (r'^core::str::<impl str>::len$', s_str_len),
+    (r'^std::string::String::len$', s_str_len),
+    (r'^<(Vec<.*>|&\[.*\]) as Into<Cow<\'_, \[.*\]>>>::into$', s_cow_slice),
+    (r'^<Cow<\'_, \[.*\]> as AsRef<\[.*\]>>::as_ref$', s_cow_slice_as_ref),
     # sets
     (r'^BTreeSet::<.*>::new$', s_set_new),
     (r'^BTreeSet::<.*>::insert$', s_set_insert),
@@ -1231,6 +1393,17 @@ TABLE = [
     (r'^quote::__private::parse$', s_quote_parse),
     (r'^(proc_macro2::)?Ident::new$', s_ident_new),
     (r'^Span::call_site$', s_span),
+    (r'^(syn::)?Attribute::path$', s_attr_path),
+    (r'^syn::Path::is_ident::<', s_path_is_ident),
+    (r'^<proc_macro2::Ident as PartialEq<.*>>::eq$', s_ident_eq_str),
+    (r'^<proc_macro2::TokenStream as IntoIterator>::into_iter$', s_ts_into_iter),
+    (r'^<proc_macro2::token_stream::IntoIter as IntoIterator>::into_iter$', s_ts_into_iter),
+    (r'^proc_macro2::Group::stream$', s_group_stream),
+    (r'^<proc_macro2::Literal as ToString>::to_string$', s_literal_to_string),
+    (r'^syn::parse_str::<LitStr>$', s_parse_litstr),
+    (r'^LitStr::value$', s_litstr_value),
+    (r'^syn::Error::new_spanned::<', s_syn_error),
+    (r'^Vec::<.*>::is_empty$', s_slice_is_empty),
     (r' as quote::__private::ext::RepAsIteratorExt<.*>>::quote_into_iter$', s_quote_into_iter),
     (r'^<quote::__private::(ThereIsNoIteratorInRepetition|HasIterator) as std::ops::BitOr<.*>>::bitor$', s_opaque_marker),
     (r'^core::fmt::rt::Argument::<.*>::new_(display|debug)::<', s_fmt_opaque),
@@ -1246,6 +1419,8 @@ def s_into(vm, st, callee, args, dest, ret_bb, m):
     a, b = mm.group(1), mm.group(2)
     src, dst = (a, b) if mm.group(3) == 'into' else (b, a)
     v = args[0]
+    if re.match(r"^Cow<'_, \[", dst):
+        return s_cow_slice(vm, st, callee, args, dest, ret_bb, m)
     if dst.startswith('Cow<') or (src.startswith('impl Into<Cow') ):
         val = deref(vm, st, v)
         if isinstance(val, Agg) and val.tag == 'Cow':
@@ -1254,6 +1429,8 @@ def s_into(vm, st, callee, args, dest, ret_bb, m):
         return done(vm, st, dest, ret_bb, Agg(1 if owned else 0, [as_str(vm, st, v)], 'Cow'))
     if dst.strip() in ('std::string::String', 'String'):
         return done(vm, st, dest, ret_bb, as_str(vm, st, v))
+    if re.match(r"^Cow<'_, \[", dst):
+        return s_cow_slice(vm, st, callee, args, dest, ret_bb, m)
     if _strip_generics(src) == _strip_generics(dst) or dst.startswith('impl '):
         return done(vm, st, dest, ret_bb, v)
     if 'Box<dyn' in dst:
